@@ -84,11 +84,12 @@ EmitInfo(d, force, rustUnion, PadFix) ==
       (* add_tail_padding (explicit padding only, not for Rust unions) *)
       tail == force /\ ~union /\ t1.off < clay.size      \* (after the repair: never for unions)
       t2 == IF tail THEN [t1 EXCEPT !.out = Append(@, [size |-> BlobLayout(clay.size - t1.off, 0).size, align |-> 1, member |-> 0]),
-                                    !.maxalign = Max(@, 0)]
+                                    !.maxalign = Max(@, 0),
+                                    !.off = clay.size]     \* (after the repair beaa0320: the tail padding advances the offset)
             ELSE t1
       zero == clay.size = 0
       (* pad_struct, struct path *)
-      padbytes == IF clay.size < t2.off THEN 0 ELSE clay.size - t2.off   \* add_tail_padding does not advance the offset
+      padbytes == IF clay.size < t2.off THEN 0 ELSE clay.size - t2.off
       dopad == ~union /\ ~zero /\ clay.size >= t2.off /\ padbytes # 0 /\ padbytes >= clay.align
       playout == IF packed0 THEN [size |-> padbytes, align |-> 1]
                  ELSE IF clay.align > MaxGuaranteedAlign THEN [size |-> padbytes, align |-> ForSizeAlign(padbytes)]
